@@ -17,7 +17,7 @@ from __future__ import annotations
 import ast
 from typing import Dict, List, Optional, Set, Tuple
 
-from ..core import AnalysisError, Ctx, assigned_names, dotted, norm, stmts_local, walk_local
+from ..core import AnalysisError, Ctx, assigned_names, dotted, effective_body, norm, stmts_local, walk_local
 from ..paths import enumerate_paths
 
 
@@ -374,7 +374,7 @@ def _append_text_identity(fn: ast.FunctionDef):
     if len(ps) != 2:
         return False, f"expected (tokens, text), got {ps}"
     TOKS, TXT = ps
-    body = [s for s in fn.body if not (isinstance(s, ast.Expr) and isinstance(s.value, ast.Constant))]
+    body = effective_body(fn)
     if len(body) != 2 or not isinstance(body[0], ast.For):
         return False, "expected `for part in text.split(sep): ...` followed by one pop()"
     loop = body[0]
